@@ -95,7 +95,10 @@ def _cycle_case(rng):
 
 # ---------------------------------------------------------------- implementation side
 def _sig(t):
-    return (tuple(str(s) for s in t.species), t.positions.tobytes(), np.asarray(t.lattice).tobytes(), repr(t.time_step),
+    # the stored state first (read without any converting accessor: a cache hit must hand back what a parse hands back), then the positions
+    bp = getattr(t, 'base_positions', None)
+    raw = (np.asarray(t.coords).tobytes(), None if bp is None else np.asarray(bp).tobytes())
+    return (raw, tuple(str(s) for s in t.species), t.positions.tobytes(), np.asarray(t.lattice).tobytes(), repr(t.time_step),
             repr(sorted(t.metadata.items())), bool(t.constant_lattice), bool(t.coords_are_displacement))
 
 
